@@ -8,10 +8,14 @@
 package vws
 
 import (
+	"bytes"
 	"context"
+	"crypto/tls"
 	"encoding/binary"
+	"encoding/json"
 	"errors"
 	"fmt"
+	"io"
 	"net"
 	"net/http"
 	"net/url"
@@ -306,6 +310,8 @@ type Dialer struct {
 	Subprotocols      []string
 	EnableCompression bool
 	Jar               http.CookieJar
+	TLSClientConfig   *tls.Config
+	NetDialTLSContext func(ctx context.Context, network, addr string) (net.Conn, error)
 }
 
 var DefaultDialer = &Dialer{Proxy: http.ProxyFromEnvironment, HandshakeTimeout: 45 * time.Second}
@@ -344,7 +350,7 @@ func (d *Dialer) DialContext(ctx context.Context, urlStr string, requestHeader h
 			TestHookDial(urlStr, requestHeader)
 		}
 		nd := &websocket.Dialer{NetDial: d.NetDial, NetDialContext: d.NetDialContext, Proxy: d.Proxy, HandshakeTimeout: d.HandshakeTimeout,
-			ReadBufferSize: d.ReadBufferSize, WriteBufferSize: d.WriteBufferSize, Subprotocols: d.Subprotocols, EnableCompression: d.EnableCompression, Jar: d.Jar}
+			ReadBufferSize: d.ReadBufferSize, WriteBufferSize: d.WriteBufferSize, Subprotocols: d.Subprotocols, EnableCompression: d.EnableCompression, Jar: d.Jar, TLSClientConfig: d.TLSClientConfig, NetDialTLSContext: d.NetDialTLSContext}
 		c, resp, err := nd.DialContext(ctx, urlStr, requestHeader)
 		if err != nil {
 			return nil, resp, err
@@ -454,4 +460,113 @@ func (u *Upgrader) Upgrade(w http.ResponseWriter, r *http.Request, responseHeade
 		return nil, errors.New("websocket: the client is not using the websocket protocol")
 	}
 	return s, nil
+}
+
+// ---- the rest of the Conn API, in terms of ReadMessage / WriteMessage ----
+
+type msgReader struct{ r *bytes.Reader }
+
+func (m msgReader) Read(p []byte) (int, error) { return m.r.Read(p) }
+
+// NextReader mirrors websocket.Conn.NextReader.
+func (c *Conn) NextReader() (int, io.Reader, error) {
+	if c.native != nil {
+		return c.native.NextReader()
+	}
+	t, d, err := c.ReadMessage()
+	if err != nil {
+		return 0, nil, err
+	}
+	return t, msgReader{bytes.NewReader(d)}, nil
+}
+
+type msgWriter struct {
+	c   *Conn
+	t   int
+	buf bytes.Buffer
+}
+
+func (m *msgWriter) Write(p []byte) (int, error) { return m.buf.Write(p) }
+func (m *msgWriter) Close() error                { return m.c.WriteMessage(m.t, m.buf.Bytes()) }
+
+// NextWriter mirrors websocket.Conn.NextWriter.
+func (c *Conn) NextWriter(messageType int) (io.WriteCloser, error) {
+	if c.native != nil {
+		return c.native.NextWriter(messageType)
+	}
+	if c.closed {
+		return nil, fmt.Errorf("write %s: use of closed network connection", c.Name)
+	}
+	return &msgWriter{c: c, t: messageType}, nil
+}
+
+func (c *Conn) ReadJSON(v interface{}) error {
+	if c.native != nil {
+		return c.native.ReadJSON(v)
+	}
+	_, d, err := c.ReadMessage()
+	if err != nil {
+		return err
+	}
+	return json.Unmarshal(d, v)
+}
+
+func (c *Conn) WriteJSON(v interface{}) error {
+	if c.native != nil {
+		return c.native.WriteJSON(v)
+	}
+	b, err := json.Marshal(v)
+	if err != nil {
+		return err
+	}
+	return c.WriteMessage(TextMessage, b)
+}
+
+func (c *Conn) EnableWriteCompression(enable bool) {
+	if c.native != nil {
+		c.native.EnableWriteCompression(enable)
+	}
+}
+
+func (c *Conn) SetCompressionLevel(level int) error {
+	if c.native != nil {
+		return c.native.SetCompressionLevel(level)
+	}
+	return nil
+}
+
+func (c *Conn) UnderlyingConn() net.Conn {
+	if c.native != nil {
+		return c.native.UnderlyingConn()
+	}
+	return nil
+}
+
+func (c *Conn) CloseHandler() func(code int, text string) error {
+	if c.native != nil {
+		return c.native.CloseHandler()
+	}
+	return func(int, string) error { return nil }
+}
+
+func (c *Conn) PingHandler() func(appData string) error {
+	if c.native != nil {
+		return c.native.PingHandler()
+	}
+	return func(string) error { return nil }
+}
+
+func (c *Conn) PongHandler() func(appData string) error {
+	if c.native != nil {
+		return c.native.PongHandler()
+	}
+	return func(string) error { return nil }
+}
+
+// JoinMessages mirrors websocket.JoinMessages for native connections only.
+func JoinMessages(c *Conn, term string) io.Reader {
+	if c.native != nil {
+		return websocket.JoinMessages(c.native, term)
+	}
+	return strings.NewReader("")
 }
